@@ -98,7 +98,9 @@ func c10R3(r *Run, li *c10LaxInfo) {
 		}
 	}
 	// both sides are collected from the whole package, whatever file a declaration lives in
-	res := ForkDiff(fork, up, nil, lax)
+	// package-level tables that remember what a pure function computed (rules_t8c10_memo.go)
+	memo, pure := c10MemoTables(r)
+	res := ForkDiff(fork, up, nil, lax, memo, pure)
 	r.Pass("upstream", "-", "compared against "+res.UpstreamDir)
 	r.Floor("same-named functions compared", res.Functions, 70)
 	for _, k := range res.SigMismatch {
